@@ -20,6 +20,8 @@ POOL_SRC = [
     "NULL", "TRUE", "FALSE", "0", "1", "-1", "3", "0.0", "1.5", "-2.5", "''", "'a'", "'abc'", "'12'", "' '",
     "date('20200229')", "//a+//", "[]", "[1, 2]", "['a']", "[[1, 2], [3, 4]]", "<<>>", "<<1, 2>>", "<<<>>>",
     "<<<'a' => 1>>>", "<**>", "<*a = 1*>", "fn(x) x", "fn(a, b) a",
+    # collections mixing kinds (their enumeration order needs the cross-kind order)
+    "<<1, 'a'>>", "<<NULL, TRUE, 'x', 2.5>>", "<<<1 => 'a', 'b' => 2>>>", "<<[1], 2, fn(y) y>>",
 ]
 BIG = "9007199254740993"
 
@@ -135,7 +137,11 @@ SYNTAX_FORMS_1 = ["-a", "not a", "a[0]", "a[-1]", "a['x']", "a[0 to 1]", "a[1 to
                   "[...a]", "identity(...a)", "def [x1, y1] = a", "def p1 = NULL; def q1 = NULL; [p1, q1] = a",
                   "if a then 1 else 2", "while a do break end", "error a", "a()", "a(1)", "a(1, 2, 3)", "string(a)", "length(a)",
                   "<<a>>", "<<<a => a>>>", "[a, a]", "def t1 = a; t1 += a", "do error a catch a 1 end", "a is empty", "a is not string",
-                  "a is zero", "a is numerical", "require a", "return a"]
+                  "a is zero", "a is numerical", "require a", "return a",
+                  # statement forms without an operand, alone and as the last statement of a body
+                  "return;", "def r1() return; r1()", "def r2() do if a then return; 5 end; r2()", "def r3() do a; return; end; r3()", "(fn() do return; end)()",
+                  "if a then return;", "do return; end", "for x in a do return; end", "do a finally return; end", "break", "continue", "for x in a do break; end",
+                  "for x in a do continue; end", "while TRUE do break; end", "do break; end", "(fn() break)()", "(fn() do continue; end)()"]
 SYNTAX_FORMS_2 = ["a + b", "a - b", "a * b", "a / b", "a % b", "a == b", "a != b", "a < b", "a <= b", "a > b", "a >= b", "a and b", "a or b",
                   "a in b", "a not in b", "a is b", "a[b]", "a[b to *]", "a[0 to b]", "a[b, 0]", "a->x = b", "def c1 = a; c1[b] = 1",
                   "def c2 = a; c2[0] = b", "a starts with b", "a ends with b", "a contains b", "a matches b", "a !> b()", "a(b)",
